@@ -1,4 +1,5 @@
-(** Proofs about the authentication model of AuthChain.v (C20).
+(** Proofs about the authentication model of AuthChain.v (C20): the positive statements for the tree as it is
+    ([repaired]) and, as regression witnesses, their refutations for the originally pinned tree ([pinned]).
 
     Hypotheses about what lies outside the model are explicit premises:
     - [crypto_ok P]: decryption under a key succeeds only on outputs of encryption under that key and returns the
@@ -76,7 +77,8 @@ Definition cache_ok (P : prims) (st : inst) : Prop :=
   forall tok s, In (tok, s) (i_cache st) -> decodes P (i_key st) tok s.
 
 Definition same_but_cache (st st' : inst) : Prop :=
-  i_cfg st' = i_cfg st /\ i_key st' = i_key st /\ i_ctr st' = i_ctr st /\ i_unix st' = i_unix st.
+  i_cfg st' = i_cfg st /\ i_key st' = i_key st /\ i_sender st' = i_sender st /\ i_ctr st' = i_ctr st
+  /\ i_unix st' = i_unix st.
 
 Lemma same_but_cache_refl st : same_but_cache st st.
 Proof. unfold same_but_cache; auto. Qed.
@@ -114,7 +116,7 @@ Lemma config_authenticate_spec P st b st' r :
   same_but_cache st st' /\ cache_ok P st'
   /\ (forall u ro, r = POk (Some (u, ro)) ->
         exists tok s, b = Some tok /\ decodes P (i_key st) tok s /\ u = s_user s
-                      /\ alookup (s_role s) (cf_roles (i_cfg st)) = Some ro)
+                      /\ cfg_role (i_cfg st) u = Some ro)
   /\ (b = None -> r = POk None /\ st' = st)
   /\ ((forall tok s, b = Some tok -> ~ decodes P (i_key st) tok s) -> st' = st /\ (b <> None -> r = PErr EInvalid)).
 Proof.
@@ -127,9 +129,11 @@ Proof.
     assert (E1 : i_cfg st1 = i_cfg st) by apply Hs.
     assert (CONTRA : (forall tok s0, Some t = Some tok -> ~ decodes P (i_key st) tok s0) -> False)
       by (intros Hn; eapply Hn; eauto).
-    destruct (alookup (s_role s) (cf_roles (i_cfg st1))) as [ro|] eqn:Er; intros H; inv H;
-      splits; auto; try discriminate; try (intros Hn; exfalso; apply CONTRA; exact Hn).
-    intros u ro' E; inv E. exists t, s. rewrite <- E1. auto.
+    destruct (alookup (s_user s) (cf_users (i_cfg st1))) as [d|] eqn:Eu.
+    + destruct (alookup (u_role d) (cf_roles (i_cfg st1))) as [ro|] eqn:Er; intros H; inv H;
+        splits; auto; try discriminate; try (intros Hn; exfalso; apply CONTRA; exact Hn).
+      intros u ro' E; inv E. exists t, s. unfold cfg_role. rewrite <- E1, Eu. auto.
+    + intros H; inv H; splits; auto; try discriminate; try (intros Hn; exfalso; apply CONTRA; exact Hn).
   - intros H; inv H. rewrite (Hnone eq_refl). splits; auto; try discriminate.
 Qed.
 
@@ -142,15 +146,15 @@ Proof.
 Qed.
 
 Lemma primary_authenticate_spec P st b st' r :
-  cache_ok P st -> primary_authenticate P st b = (st', r) ->
+  cache_ok P st -> primary_authenticate_with repaired P st b = (st', r) ->
   same_but_cache st st' /\ cache_ok P st'
   /\ (forall u ro, r = POk (Some (u, ro)) ->
         (b = Some (cf_admin_token (i_cfg st)) /\ u = admin_actor /\ ro = role_admin)
         \/ (cf_auth (i_cfg st) = ConfigFile /\
             exists tok s, b = Some tok /\ decodes P (i_key st) tok s /\ u = s_user s
-                          /\ alookup (s_role s) (cf_roles (i_cfg st)) = Some ro)).
+                          /\ cfg_role (i_cfg st) u = Some ro)).
 Proof.
-  intros Hc. unfold primary_authenticate. destruct (cf_auth (i_cfg st)) eqn:Ea.
+  intros Hc. unfold primary_authenticate_with. cbn [im_authenticate repaired]. destruct (cf_auth (i_cfg st)) eqn:Ea.
   - intros H; inv H. splits; auto. intros u ro E. left. apply admin_authenticate_success; auto.
   - intros H. destruct (config_authenticate_spec _ _ _ _ _ Hc H) as (Hs & Hc' & Hok & _).
     splits; auto; intros u ro E; right; split; auto.
@@ -164,7 +168,7 @@ Inductive how_authenticated (P : prims) (st : inst) (rq : areq) (u : string) (r 
   | by_session tok s :
       cf_auth (i_cfg st) = ConfigFile ->
       rq_bearer rq = Some tok -> decodes P (i_key st) tok s -> u = s_user s ->
-      alookup (s_role s) (cf_roles (i_cfg st)) = Some r ->
+      cfg_role (i_cfg st) u = Some r ->
       how_authenticated P st rq u r
   | by_unix_peer :
       rq_tr rq = Unix u -> alookup u (i_unix st) = Some r ->
@@ -182,7 +186,7 @@ Lemma authenticate_spec P st rq st' a :
   same_but_cache st st' /\ cache_ok P st'
   /\ (forall u r, a = AUser u r -> how_authenticated P st rq u r).
 Proof.
-  intros Hc. unfold authenticate.
+  intros Hc. unfold authenticate, authenticate_with.
   remember (match cf_auth (i_cfg st) with
             | ConfigFile => admin_authenticate (i_cfg st) (rq_bearer rq)
             | AdminTokenOnly => POk None
@@ -193,7 +197,7 @@ Proof.
     intros u r E. destruct r1 as [[[u1 ro1]|]|e]; try discriminate. inv E.
     destruct (cf_auth (i_cfg st)); [discriminate|]. symmetry in R1.
     apply admin_authenticate_success in R1. destruct R1 as (? & ? & ?). apply by_admin_token; auto.
-  - destruct (primary_authenticate P st (rq_bearer rq)) as [st1 r2] eqn:E2.
+  - destruct (primary_authenticate_with repaired P st (rq_bearer rq)) as [st1 r2] eqn:E2.
     destruct (primary_authenticate_spec _ _ _ _ _ Hc E2) as (Hs & Hc1 & Hok).
     intros H; injection H as Est Ea; subst st1 a. splits; auto.
     intros u r E.
@@ -204,18 +208,18 @@ Proof.
       * eapply by_session; eauto.
     + destruct (unix_authenticate st' (rq_tr rq)) as [[[u3 ro3]|]|e] eqn:E3; try discriminate. inv E.
       apply unix_authenticate_success in E3. destruct E3 as [Et El].
-      destruct Hs as (_ & _ & _ & Hu). rewrite Hu in El. apply by_unix_peer; auto.
+      destruct Hs as (_ & _ & _ & _ & Hu). rewrite Hu in El. apply by_unix_peer; auto.
 Qed.
 
 (** * Runs: the invariant *)
 
-(** Facts recorded with every token [config_login] hands out. *)
+(** Facts recorded with every token [config_login] hands out: the user of the session is configured, the
+    submitted password matched the hash stored for that very user, and the user's role permits login. *)
 Definition login_facts (P : prims) (cfg : config) (s : session) : Prop :=
-  exists raw pw d0 d r,
-    alookup raw (cf_users cfg) = Some d0 /\ u_salt_hex d0 = true
-    /\ p_pw_ok P (u_cred d0) (p_norm P raw) (p_norm P pw) = true
-    /\ s_user s = p_norm P raw
-    /\ alookup (s_user s) (cf_users cfg) = Some d /\ s_role s = u_role d
+  exists pw d r,
+    alookup (s_user s) (cf_users cfg) = Some d /\ u_salt_hex d = true
+    /\ p_pw_ok P (u_cred d) (p_norm P (s_user s)) (p_norm P pw) = true
+    /\ s_role s = u_role d
     /\ alookup (u_role d) (cf_roles cfg) = Some r /\ is_allowed r Login None = true.
 
 Definition issue_ok (P : prims) (key : N) (i : issue) : Prop :=
@@ -233,12 +237,12 @@ Record inv (P : prims) (key : N) (st : inst) (log : list issue) : Prop := {
 Lemma inv_same_but_cache P key st st' log :
   inv P key st log -> same_but_cache st st' -> cache_ok P st' -> inv P key st' log.
 Proof.
-  intros [K C U L] (E1 & E2 & E3 & E4) Hc. constructor; auto.
+  intros [K C U L] (E1 & E2 & E3 & E4 & E5) Hc. constructor; auto.
   - congruence.
-  - rewrite E1, E4. auto.
+  - rewrite E1, E5. auto.
 Qed.
 
-Lemma start_inv P cfg key st : start cfg key = Some st -> inv P key st [].
+Lemma start_inv P cfg key sender st : start cfg key sender = Some st -> inv P key st [].
 Proof.
   unfold start. destruct (build_unix (cf_roles cfg) (cf_unix cfg)) eqn:E; [|discriminate].
   intros H; inv H. constructor; simpl; auto.
@@ -251,10 +255,10 @@ Lemma config_login_spec P st basic st' res :
   match res with
   | LOk tok id rn =>
       let s := mkSess id rn in
-      tok = p_b64enc P (p_encrypt P (i_key st) (i_ctr st) (p_ser P s))
+      tok = p_b64enc P (p_encrypt P (i_key st) (i_sender st, i_ctr st) (p_ser P s))
       /\ login_facts P (i_cfg st) s
-      /\ (exists name pw, basic = Some (name, pw) /\ id = p_norm P name)
-      /\ st' = mkInst (i_cfg st) (i_key st) (i_ctr st + 1) (i_unix st) (cache_put tok s (i_cache st))
+      /\ (exists pw, basic = Some (id, pw))
+      /\ st' = mkInst (i_cfg st) (i_key st) (i_sender st) (i_ctr st + 1) (i_unix st) (cache_put tok s (i_cache st))
       /\ cache_ok P st'
   | _ => st' = st
   end.
@@ -264,12 +268,11 @@ Proof.
   destruct (alookup name (cf_users (i_cfg st))) as [d0|] eqn:E0; [|intros H; inv H; auto].
   destruct (u_salt_hex d0) eqn:Eh; cbn [negb]; [|intros H; inv H; auto].
   destruct (p_pw_ok P (u_cred d0) (p_norm P name) (p_norm P pw)) eqn:Ep; cbn [negb]; [|intros H; inv H; auto].
-  destruct (alookup (p_norm P name) (cf_users (i_cfg st))) as [d|] eqn:E1; [|intros H; inv H; auto].
-  destruct (alookup (u_role d) (cf_roles (i_cfg st))) as [r|] eqn:Er; [|intros H; inv H; auto].
+  destruct (alookup (u_role d0) (cf_roles (i_cfg st))) as [r|] eqn:Er; [|intros H; inv H; auto].
   destruct (is_allowed r Login None) eqn:Ea; cbn [negb]; intros H; inv H; auto.
   cbv zeta. splits; auto.
-  - exists name, pw, d0, d, r. simpl. splits; auto.
-  - exists name, pw. auto.
+  - exists pw, d0, r. simpl. splits; auto.
+  - exists pw. auto.
   - intros t s [E|Hin].
     + inv E. simpl. destruct CO as [_ Cc Cs Cb].
       eexists _, _. split; [apply Cb|]. split; [apply Cc|]. apply Cs.
@@ -278,7 +281,8 @@ Qed.
 
 Lemma pre_spec P st b : cache_ok P st -> same_but_cache st (pre P st b) /\ cache_ok P (pre P st b).
 Proof.
-  intros Hc. unfold pre. destruct (authenticate P st (mkRq b Tcp)) as [st1 a] eqn:E.
+  intros Hc. unfold pre, pre_with. change (authenticate_with repaired) with authenticate.
+  destruct (authenticate P st (mkRq b Tcp)) as [st1 a] eqn:E.
   destruct (authenticate_spec _ _ _ _ _ Hc E) as (? & ? & _). auto.
 Qed.
 
@@ -288,12 +292,15 @@ Proof. intros Hc t s Hin. simpl in *. apply In_aremove in Hin. apply Hc; auto. Q
 Lemma step_inv P key st log o st' l :
   crypto_ok P -> inv P key st log -> step P st o = Some (st', l) -> inv P key st' (log ++ l).
 Proof.
-  intros CO I. destruct o as [basic b|rq|b|tok|cfg']; simpl.
+  intros CO I. unfold step, step_with. cbn [im_keep_sender repaired].
+  change (pre_with repaired) with pre. change (login_with repaired) with login.
+  change (authenticate_with repaired) with authenticate. change (logout_with repaired) with logout.
+  destruct o as [basic b|rq|b|tok|cfg' sender'].
   - (* login *)
     destruct (pre_spec P st b (inv_cache _ _ _ _ I)) as [Hs Hc0].
     pose proof (inv_same_but_cache _ _ _ _ _ I Hs Hc0) as I0.
     set (st0 := pre P st b) in *.
-    unfold login. destruct (cf_auth (i_cfg st0)) eqn:Ea.
+    unfold login, login_with. cbn [im_login repaired]. destruct (cf_auth (i_cfg st0)) eqn:Ea.
     + (* admin token provider: no state, no token of its own *)
       unfold admin_login. destruct (admin_authenticate (i_cfg st0) b) as [[?|]|?]; intros H; inv H; rewrite app_nil_r; auto.
     + destruct (config_login P st0 basic) as [st1 res] eqn:El.
@@ -316,7 +323,7 @@ Proof.
     destruct (pre_spec P st b (inv_cache _ _ _ _ I)) as [Hs Hc0].
     pose proof (inv_same_but_cache _ _ _ _ _ I Hs Hc0) as I0.
     set (st0 := pre P st b) in *.
-    unfold logout. destruct (cf_auth (i_cfg st0)); auto. destruct b as [t|]; auto.
+    unfold logout, logout_with. cbn [im_authenticate repaired]. destruct (cf_auth (i_cfg st0)); auto. destruct b as [t|]; auto.
     pose proof (cache_ok_aremove P st0 t Hc0) as Hc1.
     destruct (config_authenticate P (set_cache st0 (aremove t (i_cache st0))) (Some t)) as [st2 r] eqn:E. simpl.
     destruct (config_authenticate_spec _ _ _ _ _ Hc1 E) as (Hs2 & Hc2 & _).
@@ -326,94 +333,122 @@ Proof.
     intros H; inv H. rewrite app_nil_r.
     eapply inv_same_but_cache; [exact I|apply same_but_cache_set|apply cache_ok_aremove; apply (inv_cache _ _ _ _ I)].
   - (* restart *)
-    destruct (start cfg' (i_key st)) as [st1|] eqn:E; intros H; inv H. rewrite app_nil_r.
-    pose proof (start_inv P _ _ _ E) as I1. destruct I as [K C U L], I1 as [K1 C1 U1 _].
+    destruct (start cfg' (i_key st) sender') as [st1|] eqn:E; intros H; inv H. rewrite app_nil_r.
+    pose proof (start_inv P _ _ _ _ E) as I1. destruct I as [K C U L], I1 as [K1 C1 U1 _].
     constructor; auto. congruence.
 Qed.
 
 Lemma run_inv P key ops : forall st log st' l,
   crypto_ok P -> inv P key st log -> run P st ops = Some (st', l) -> inv P key st' (log ++ l).
 Proof.
-  induction ops as [|o ops IH]; simpl; intros st log st' l CO I.
+  unfold run. induction ops as [|o ops IH]; simpl; intros st log st' l CO I.
   - intros H; inv H. rewrite app_nil_r. auto.
-  - destruct (step P st o) as [[st1 l1]|] eqn:Es; [|discriminate].
-    destruct (run P st1 ops) as [[st2 l2]|] eqn:Er; [|discriminate].
+  - destruct (step_with repaired P st o) as [[st1 l1]|] eqn:Es; [|discriminate].
+    destruct (run_with repaired P st1 ops) as [[st2 l2]|] eqn:Er; [|discriminate].
     intros H; inv H. rewrite app_assoc. eapply IH; eauto. eapply step_inv; eauto.
 Qed.
 
-Lemma run_inv0 P cfg key st0 ops st log :
-  crypto_ok P -> start cfg key = Some st0 -> run P st0 ops = Some (st, log) -> inv P key st log.
-Proof. intros CO S R. apply (run_inv P key ops st0 [] st log CO (start_inv P _ _ _ S) R). Qed.
+Lemma run_inv0 P cfg key sender st0 ops st log :
+  crypto_ok P -> start cfg key sender = Some st0 -> run P st0 ops = Some (st, log) -> inv P key st log.
+Proof. intros CO S R. apply (run_inv P key ops st0 [] st log CO (start_inv P _ _ _ _ S) R). Qed.
 
-(** Without a restart the configuration is the one the daemon was started with, every token was issued under
-    it, and every nonce used so far is below the counter. *)
-Definition no_restart (ops : list op) : Prop := forallb (fun o => negb (is_restart o)) ops = true.
-
-Record inv_nr (cfg : config) (st : inst) (log : list issue) : Prop := {
-  nr_cfg : i_cfg st = cfg;
-  nr_log : forall i, In i log -> is_cfg i = cfg /\ is_nonce i < i_ctr st
+(** * Nonces: every token is encrypted under a (sender id, counter) pair of its own, as long as the sender ids
+    drawn at the starts of the daemon differ *)
+Record ninv (used : list N) (st : inst) (log : list issue) : Prop := {
+  ni_cur : In (i_sender st) used;
+  ni_log : forall i, In i log ->
+             In (fst (is_nonce i)) used /\ (fst (is_nonce i) = i_sender st -> snd (is_nonce i) < i_ctr st);
+  ni_nodup : NoDup (map is_nonce log)
 }.
 
-Lemma step_inv_nr P cfg st log o st' l :
-  crypto_ok P -> cache_ok P st -> inv_nr cfg st log -> is_restart o = false -> step P st o = Some (st', l) ->
-  inv_nr cfg st' (log ++ l) /\ i_ctr st <= i_ctr st'
-  /\ NoDup (map is_nonce l) /\ (forall i, In i l -> i_ctr st <= is_nonce i).
+Lemma ninv_same_but_cache used st st' log : ninv used st log -> same_but_cache st st' -> ninv used st' log.
 Proof.
-  intros CO Hc [Ec Hl] Hr.
-  assert (KEEP : forall st1, same_but_cache st st1 -> inv_nr cfg st1 (log ++ []) /\ i_ctr st <= i_ctr st1
-            /\ NoDup (map is_nonce (@nil issue)) /\ (forall i, In i (@nil issue) -> i_ctr st <= is_nonce i)).
-  { intros st1 (E1 & E2 & E3 & E4). rewrite app_nil_r. split; [|split; [lia|split; [constructor|intros i []]]].
-    constructor; [congruence|]. intros i Hin. rewrite E3. auto. }
-  destruct o as [basic b|rq|b|tok|cfg']; simpl in *; try discriminate.
+  intros [C L N] (_ & _ & Es & Ec & _). constructor; auto.
+  - rewrite Es. auto.
+  - intros i Hin. rewrite Es, Ec. auto.
+Qed.
+
+Lemma NoDup_app_inv {A} (l1 l2 : list A) :
+  NoDup (l1 ++ l2) -> NoDup l1 /\ NoDup l2 /\ (forall x, In x l1 -> In x l2 -> False).
+Proof.
+  induction l1 as [|a l1 IH]; simpl; intros H.
+  - splits; auto. constructor.
+  - inv H. destruct (IH H3) as (N1 & N2 & D). splits; auto.
+    + constructor; auto. intros Hin. apply H2. apply in_or_app. auto.
+    + intros x [->|Hx] Hx2; [apply H2; apply in_or_app; auto|eapply D; eauto].
+Qed.
+
+Lemma step_ninv P used st log o st' l :
+  crypto_ok P -> cache_ok P st -> ninv used st log ->
+  (forall s, In s (op_senders [o]) -> ~ In s used) ->
+  step P st o = Some (st', l) -> ninv (op_senders [o] ++ used) st' (log ++ l).
+Proof.
+  intros CO Hc NI FR. unfold step, step_with. cbn [im_keep_sender repaired].
+  change (pre_with repaired) with pre. change (login_with repaired) with login.
+  change (authenticate_with repaired) with authenticate. change (logout_with repaired) with logout.
+  assert (KEEP : forall st1, same_but_cache st st1 -> ninv used st1 (log ++ [])).
+  { intros st1 Hs. rewrite app_nil_r. eapply ninv_same_but_cache; eauto. }
+  destruct o as [basic b|rq|b|tok|cfg' sender']; cbn [op_senders flat_map app] in *.
   - destruct (pre_spec P st b Hc) as [Hs Hc0]. set (st0 := pre P st b) in *.
-    unfold login. destruct (cf_auth (i_cfg st0)) eqn:Ea.
+    unfold login, login_with. cbn [im_login repaired]. destruct (cf_auth (i_cfg st0)) eqn:Ea.
     + unfold admin_login. destruct (admin_authenticate (i_cfg st0) b) as [[?|]|?]; intros H; inv H; apply KEEP; auto.
     + destruct (config_login P st0 basic) as [st1 res] eqn:El.
       pose proof (config_login_spec _ _ _ _ _ CO Hc0 El) as S.
       destruct res as [tok id rn| | | |]; intros H; inv H; try (subst; apply KEEP; auto; fail).
       cbv zeta in S. destruct S as (_ & _ & _ & Est & _).
-      destruct Hs as (E1 & E2 & E3 & E4). subst st'. simpl. rewrite E3.
-      split; [|split; [lia|split]].
-      * constructor; simpl; [congruence|].
-        intros i Hin. apply in_app_or in Hin. destruct Hin as [Hin|[E|[]]].
-        -- destruct (Hl i Hin). split; auto. lia.
-        -- subst i. simpl. split; [congruence|lia].
-      * simpl. constructor; [intros []|constructor].
-      * intros i [E|[]]. subst i. simpl. lia.
+      destruct Hs as (_ & _ & Es & Ec & _). destruct NI as [C L N]. subst st'.
+      constructor; simpl.
+      * rewrite Es. auto.
+      * intros i Hin. apply in_app_or in Hin. destruct Hin as [Hin|[E|[]]].
+        -- destruct (L i Hin) as [Hu Hlt]. split; auto. rewrite Es, Ec. intros E. apply Hlt in E. lia.
+        -- subst i. simpl. rewrite Es. split; auto. intros _. lia.
+      * rewrite map_app. simpl. apply NoDup_app_disjoint; auto.
+        -- constructor; [intros []|constructor].
+        -- intros n Hin [E|[]]. apply in_map_iff in Hin. destruct Hin as (i & Ei & Hin).
+           destruct (L i Hin) as [_ Hlt]. rewrite Ei, <- E in Hlt. simpl in Hlt. rewrite Es, Ec in Hlt.
+           specialize (Hlt eq_refl). lia.
   - intros H; inv H. apply KEEP.
     destruct (authenticate P st rq) as [st1 a] eqn:E. simpl.
     destruct (authenticate_spec _ _ _ _ _ Hc E) as (Hs & _ & _). auto.
   - intros H; inv H. apply KEEP.
     destruct (pre_spec P st b Hc) as [Hs Hc0]. set (st0 := pre P st b) in *.
-    unfold logout. destruct (cf_auth (i_cfg st0)); auto. destruct b as [t|]; auto.
+    unfold logout, logout_with. cbn [im_authenticate repaired]. destruct (cf_auth (i_cfg st0)); auto. destruct b as [t|]; auto.
     pose proof (cache_ok_aremove P st0 t Hc0) as Hc1.
     destruct (config_authenticate P (set_cache st0 (aremove t (i_cache st0))) (Some t)) as [st2 r] eqn:E. simpl.
     destruct (config_authenticate_spec _ _ _ _ _ Hc1 E) as (Hs2 & _ & _).
     eapply same_but_cache_trans; [exact Hs|]. eapply same_but_cache_trans; [|exact Hs2]. apply same_but_cache_set.
   - intros H; inv H. apply KEEP. apply same_but_cache_set.
+  - (* restart with a sender id that was never used *)
+    destruct (start cfg' (i_key st) sender') as [st1|] eqn:E; intros H; inv H. rewrite app_nil_r.
+    assert (Es : i_sender st' = sender' /\ i_ctr st' = 0).
+    { unfold start in E. destruct (build_unix _ _); inv E. auto. }
+    destruct Es as [Es Ec]. destruct NI as [C L N]. constructor; auto.
+    + rewrite Es. left. auto.
+    + intros i Hin. destruct (L i Hin) as [Hu _]. split; [right; auto|].
+      rewrite Es. intros E2. exfalso. apply (FR sender'); [left; auto|]. rewrite <- E2. auto.
 Qed.
 
-Lemma run_inv_nr P cfg key ops : forall st log st' l,
-  crypto_ok P -> inv P key st log -> inv_nr cfg st log -> no_restart ops -> run P st ops = Some (st', l) ->
-  inv_nr cfg st' (log ++ l) /\ i_ctr st <= i_ctr st'
-  /\ NoDup (map is_nonce l) /\ (forall i, In i l -> i_ctr st <= is_nonce i).
+Lemma op_senders_cons o ops : op_senders (o :: ops) = op_senders [o] ++ op_senders ops.
+Proof. unfold op_senders. simpl. rewrite app_nil_r. reflexivity. Qed.
+
+Lemma run_ninv P key ops : forall used st log st' l,
+  crypto_ok P -> inv P key st log -> ninv used st log ->
+  NoDup (op_senders ops) -> (forall s, In s (op_senders ops) -> ~ In s used) ->
+  run P st ops = Some (st', l) -> exists used', ninv used' st' (log ++ l).
 Proof.
-  induction ops as [|o ops IH]; simpl; intros st log st' l CO I N Hr.
-  - intros H; inv H. rewrite app_nil_r. split; auto. split; [lia|]. split; [constructor|intros i []].
-  - destruct (step P st o) as [[st1 l1]|] eqn:Es; [|discriminate].
-    destruct (run P st1 ops) as [[st2 l2]|] eqn:Er; [|discriminate].
-    intros H; inv H. unfold no_restart in Hr. simpl in Hr. apply andb_prop in Hr. destruct Hr as [Ho Hr].
-    apply negb_true_iff in Ho.
-    destruct (step_inv_nr _ _ _ _ _ _ _ CO (inv_cache _ _ _ _ I) N Ho Es) as (N1 & Le1 & Nd1 & Lo1).
+  unfold run. induction ops as [|o ops IH]; intros used st log st' l CO I NI ND FR.
+  - simpl. intros H; inv H. rewrite app_nil_r. eauto.
+  - simpl run_with. destruct (step_with repaired P st o) as [[st1 l1]|] eqn:Es; [|discriminate].
+    destruct (run_with repaired P st1 ops) as [[st2 l2]|] eqn:Er; [|discriminate].
+    intros H; inv H. rewrite op_senders_cons in ND, FR.
+    destruct (NoDup_app_inv _ _ ND) as (_ & ND2 & DJ).
+    assert (NI1 : ninv (op_senders [o] ++ used) st1 (log ++ l1)).
+    { eapply step_ninv; eauto. apply (inv_cache _ _ _ _ I). intros s Hs. apply FR. apply in_or_app. auto. }
     pose proof (step_inv _ _ _ _ _ _ _ CO I Es) as I1.
-    destruct (IH _ _ _ _ CO I1 N1 Hr Er) as (N2 & Le2 & Nd2 & Lo2).
-    rewrite app_assoc. split; auto. split; [lia|]. split.
-    + rewrite map_app. apply NoDup_app_disjoint; auto.
-      intros n H1 H2. apply in_map_iff in H1. destruct H1 as (i1 & <- & H1).
-      apply in_map_iff in H2. destruct H2 as (i2 & E & H2).
-      destruct N1 as [_ Hl1]. destruct (Hl1 i1 (in_or_app _ _ _ (or_intror H1))) as [_ Lt].
-      pose proof (Lo2 i2 H2). lia.
-    + intros i Hin. apply in_app_or in Hin. destruct Hin as [Hin|Hin]; auto. pose proof (Lo2 i Hin). lia.
+    rewrite app_assoc. eapply IH; eauto.
+    intros s Hs Hin. apply in_app_or in Hin. destruct Hin as [Hin|Hin].
+    + eapply DJ; eauto.
+    + apply (FR s); auto. apply in_or_app. auto.
 Qed.
 
 (** * The toy primitives meet the assumptions (so the hypotheses of the theorems below are consistent) *)
@@ -455,12 +490,13 @@ Proof.
   - intros k c pt. simpl. unfold toy_decrypt.
     destruct (strip_unary c) as [[k' r]|] eqn:E1; [|discriminate].
     destruct (N.of_nat k' =? k) eqn:Ek; [|discriminate]. apply N.eqb_eq in Ek.
-    destruct (strip_unary r) as [[n' pt']|] eqn:E2; [|discriminate].
-    intros H; inv H. exists (N.of_nat n').
-    apply strip_unary_inv in E1. apply strip_unary_inv in E2. subst.
-    unfold toy_encrypt. rewrite unary_ones, unary_ones. reflexivity.
-  - intros k n pt. simpl. unfold toy_decrypt, toy_encrypt.
-    rewrite strip_unary_app, N2Nat.id, N.eqb_refl, strip_unary_app. reflexivity.
+    destruct (strip_unary r) as [[s' r2]|] eqn:E2; [|discriminate].
+    destruct (strip_unary r2) as [[c' pt']|] eqn:E3; [|discriminate].
+    intros H; inv H. exists (N.of_nat s', N.of_nat c').
+    apply strip_unary_inv in E1. apply strip_unary_inv in E2. apply strip_unary_inv in E3. subst.
+    unfold toy_encrypt. cbn [fst snd]. rewrite !unary_ones. reflexivity.
+  - intros k [s c] pt. simpl. unfold toy_decrypt, toy_encrypt. cbn [fst snd].
+    rewrite strip_unary_app, N2Nat.id, N.eqb_refl, !strip_unary_app. reflexivity.
   - intros [u r]. simpl. unfold toy_de, toy_ser. simpl.
     rewrite strip_unary_app, Nat2N.id, slength_app.
     replace (Nat.leb (String.length u) (String.length u + String.length r)) with true
@@ -536,22 +572,26 @@ Proof.
     intros H; inv H. simpl. destruct (String.eqb p u) eqn:E; [discriminate|]. eauto.
 Qed.
 
-(** Runs with restarts (and configuration changes): a request acts as a user only by the admin token, by a token
-    this storage's logins issued (under the configuration of that time; the role is the one its role NAME has in
-    the current role table), or as the mapped socket peer. *)
-Theorem auth_identity_any_run : forall P cfg key st0 ops st log rq st' u r,
-  crypto_ok P -> start cfg key = Some st0 -> run P st0 ops = Some (st, log) ->
-  (forall b, rq_bearer rq = Some b -> own_ct P key log b) ->
-  authenticate P st rq = (st', AUser u r) ->
-  (rq_bearer rq = Some (cf_admin_token (i_cfg st)) /\ u = admin_actor /\ r = role_admin)
-  \/ (exists b i, rq_bearer rq = Some b /\ In i log /\ same_bytes P b (is_tok i) /\ u = s_user (is_sess i)
-        /\ login_facts P (is_cfg i) (is_sess i)
-        /\ alookup (s_role (is_sess i)) (cf_roles (i_cfg st)) = Some r)
-  \/ (exists rn, rq_tr rq = Unix u /\ alookup u (cf_unix (i_cfg st)) = Some rn
-        /\ alookup rn (cf_roles (i_cfg st)) = Some r).
+(** The statement, over an implementation of the config-file provider: in every run of a storage - restarts
+    with an edited configuration included - a request acts as a user only by the admin token (role admin), by a
+    token that a login of this storage issued for a then configured user and the matching password - with the
+    role the configuration gives that user NOW -, or as the mapped socket peer. *)
+Definition auth_identity_on (I : impl) : Prop :=
+  forall P cfg key sender st0 ops st log rq st' u r,
+    crypto_ok P -> start cfg key sender = Some st0 -> run_with I P st0 ops = Some (st, log) ->
+    (forall b, rq_bearer rq = Some b -> own_ct P key log b) ->
+    authenticate_with I P st rq = (st', AUser u r) ->
+    (rq_bearer rq = Some (cf_admin_token (i_cfg st)) /\ u = admin_actor /\ r = role_admin)
+    \/ (exists b i, rq_bearer rq = Some b /\ In i log /\ same_bytes P b (is_tok i) /\ u = s_user (is_sess i)
+          /\ login_facts P (is_cfg i) (is_sess i) /\ cfg_role (i_cfg st) u = Some r)
+    \/ (exists rn, rq_tr rq = Unix u /\ alookup u (cf_unix (i_cfg st)) = Some rn
+          /\ alookup rn (cf_roles (i_cfg st)) = Some r).
+
+Theorem auth_identity : auth_identity_on repaired.
 Proof.
-  intros P cfg key st0 ops st log rq st' u r CO S R OWN A.
-  pose proof (run_inv0 _ _ _ _ _ _ _ CO S R) as [K C U L].
+  intros P cfg key sender st0 ops st log rq st' u r CO S R OWN A.
+  change (run_with repaired) with run in R. change (authenticate_with repaired) with authenticate in A.
+  pose proof (run_inv0 _ _ _ _ _ _ _ _ CO S R) as [K C U L].
   destruct (authenticate_spec _ _ _ _ _ C A) as (_ & _ & HOW).
   destruct (HOW u r eq_refl) as [Eb Eu Er|tok s Ea Eb D Eu Er|Et El].
   - left. auto.
@@ -561,86 +601,172 @@ Proof.
   - right. right. destruct (build_unix_lookup _ _ _ _ _ U El) as (rn & ? & ?). exists rn. auto.
 Qed.
 
-(** One life of the daemon (no restart): the role is the one configured for that user. *)
-Theorem auth_identity : forall P cfg key st0 ops st log rq st' u r,
-  crypto_ok P -> start cfg key = Some st0 -> run P st0 ops = Some (st, log) -> no_restart ops ->
-  (forall b, rq_bearer rq = Some b -> own_ct P key log b) ->
-  authenticate P st rq = (st', AUser u r) ->
-  (rq_bearer rq = Some (cf_admin_token cfg) /\ u = admin_actor /\ r = role_admin)
-  \/ (exists b i, rq_bearer rq = Some b /\ In i log /\ same_bytes P b (is_tok i) /\ u = s_user (is_sess i)
-        /\ login_facts P cfg (is_sess i) /\ cfg_role cfg u = Some r)
-  \/ (exists rn, rq_tr rq = Unix u /\ alookup u (cf_unix cfg) = Some rn /\ alookup rn (cf_roles cfg) = Some r).
-Proof.
-  intros P cfg key st0 ops st log rq st' u r CO S R NR OWN A.
-  pose proof (start_inv P _ _ _ S) as I0.
-  assert (N0 : inv_nr cfg st0 []).
-  { constructor; [|intros i []]. unfold start in S. destruct (build_unix _ _); inv S. reflexivity. }
-  destruct (run_inv_nr _ _ _ _ _ _ _ _ CO I0 N0 NR R) as ([Ec Hl] & _). simpl in Hl.
-  destruct (auth_identity_any_run _ _ _ _ _ _ _ _ _ _ _ CO S R OWN A)
-    as [H|[(b & i & Eb & Hin & SB & Eu & LF & Er)|H]]; rewrite Ec in *; auto.
-  right. left. exists b, i. destruct (Hl i Hin) as [Ei _]. rewrite Ei in LF. splits; auto.
-  destruct LF as (raw & pw & d0 & d & ro & _ & _ & _ & _ & Ed & Erl & _).
-  unfold cfg_role. subst u. rewrite Ed, <- Erl. exact Er.
-Qed.
-
 (** With a strict base64 decoder the bearer is, text for text, a token that login handed out. *)
-Theorem auth_identity_strict : forall P cfg key st0 ops st log rq st' u r,
-  crypto_ok P -> b64_strict P -> start cfg key = Some st0 -> run P st0 ops = Some (st, log) -> no_restart ops ->
+Theorem auth_identity_strict : forall P cfg key sender st0 ops st log rq st' u r,
+  crypto_ok P -> b64_strict P -> start cfg key sender = Some st0 -> run P st0 ops = Some (st, log) ->
   (forall b, rq_bearer rq = Some b -> own_ct P key log b) ->
   authenticate P st rq = (st', AUser u r) ->
-  (rq_bearer rq = Some (cf_admin_token cfg) /\ u = admin_actor /\ r = role_admin)
+  (rq_bearer rq = Some (cf_admin_token (i_cfg st)) /\ u = admin_actor /\ r = role_admin)
   \/ (exists i, In i log /\ rq_bearer rq = Some (is_tok i) /\ u = s_user (is_sess i)
-        /\ login_facts P cfg (is_sess i) /\ cfg_role cfg u = Some r)
-  \/ (exists rn, rq_tr rq = Unix u /\ alookup u (cf_unix cfg) = Some rn /\ alookup rn (cf_roles cfg) = Some r).
+        /\ login_facts P (is_cfg i) (is_sess i) /\ cfg_role (i_cfg st) u = Some r)
+  \/ (exists rn, rq_tr rq = Unix u /\ alookup u (cf_unix (i_cfg st)) = Some rn
+        /\ alookup rn (cf_roles (i_cfg st)) = Some r).
 Proof.
-  intros P cfg key st0 ops st log rq st' u r CO ST S R NR OWN A.
-  destruct (auth_identity _ _ _ _ _ _ _ _ _ _ _ CO S R NR OWN A)
+  intros P cfg key sender st0 ops st log rq st' u r CO ST S R OWN A.
+  destruct (auth_identity _ _ _ _ _ _ _ _ _ _ _ _ CO S R OWN A)
     as [H|[(b & i & Eb & Hin & SB & Eu & LF & Er)|H]]; auto.
   right. left. exists i. rewrite (same_bytes_strict _ _ _ ST SB) in Eb. splits; auto.
 Qed.
 
-(** * Login *)
-
-(** Every configured user name is its own normal form. *)
-Definition names_normal (P : prims) (cfg : config) : Prop :=
-  forall n d, alookup n (cf_users cfg) = Some d -> p_norm P n = n.
-
-(** What a successful login establishes, without any hypothesis on the configuration: the stored hash that
-    matched is the one filed under the RAW name, the identity and role are those of the NORMALISED name. *)
-Theorem login_sound : forall P st name pw b st' tok id rn,
-  crypto_ok P -> cf_auth (i_cfg st) = ConfigFile ->
-  login P st (Some (name, pw)) b = (st', LOk tok id rn) ->
-  id = p_norm P name /\ login_facts P (i_cfg st) (mkSess id rn).
+(** What a request without bearer gets: nothing over TCP, the peer's role over the socket. *)
+Lemma authenticate_no_bearer P st tr :
+  authenticate P st (mkRq None tr) =
+  (st, match tr with
+       | Tcp => AAnon
+       | Unix p => match alookup p (i_unix st) with Some r => AUser p r | None => AErr EInvalid end
+       end).
 Proof.
-  intros P st name pw b st' tok id rn CO Ea. unfold login. rewrite Ea. unfold config_login.
-  destruct (alookup name (cf_users (i_cfg st))) as [d0|] eqn:E0; [|intros H; inv H].
-  destruct (u_salt_hex d0) eqn:Eh; cbn [negb]; [|intros H; inv H].
-  destruct (p_pw_ok P (u_cred d0) (p_norm P name) (p_norm P pw)) eqn:Ep; cbn [negb]; [|intros H; inv H].
-  destruct (alookup (p_norm P name) (cf_users (i_cfg st))) as [d|] eqn:E1; [|intros H; inv H].
-  destruct (alookup (u_role d) (cf_roles (i_cfg st))) as [r|] eqn:Er; [|intros H; inv H].
-  destruct (is_allowed r Login None) eqn:Eal; cbn [negb]; intros H; inv H.
-  split; auto. exists name, pw, d0, d, r. simpl. splits; auto.
+  unfold authenticate, authenticate_with, primary_authenticate_with. simpl.
+  destruct (cf_auth (i_cfg st)); simpl; destruct tr as [|p]; simpl; auto;
+    destruct (alookup p (i_unix st)); reflexivity.
 Qed.
 
+(** What a token of the log gets: its user, with the role the configuration gives that user now - or, when the
+    user is no longer configured (or the role is gone), what the request would get without bearer. *)
+Lemma authenticate_issued P key st log i tr :
+  crypto_ok P -> inv P key st log -> In i log ->
+  cf_auth (i_cfg st) = ConfigFile -> is_tok i <> cf_admin_token (i_cfg st) ->
+  snd (authenticate P st (mkRq (Some (is_tok i)) tr)) =
+  match cfg_role (i_cfg st) (s_user (is_sess i)) with
+  | Some r => AUser (s_user (is_sess i)) r
+  | None => snd (authenticate P st (mkRq None tr))
+  end.
+Proof.
+  intros CO [K C U L] Hin Ea NA.
+  pose proof (L i Hin) as IO.
+  assert (EA : admin_authenticate (i_cfg st) (Some (is_tok i)) = PErr EInvalid).
+  { unfold admin_authenticate. destruct (String.eqb (is_tok i) (cf_admin_token (i_cfg st))) eqn:E; auto.
+    apply String.eqb_eq in E. contradiction. }
+  assert (ED : exists st1, session_decode P st (is_tok i) = (st1, Some (is_sess i)) /\ same_but_cache st st1).
+  { destruct (session_decode P st (is_tok i)) as [st1 o] eqn:E.
+    destruct (session_decode_spec _ _ _ _ _ C E) as (Hs & _ & Hd & Hn).
+    exists st1. split; [|apply Hs]. f_equal.
+    destruct o as [s|].
+    - f_equal. rewrite K in Hd. eapply decodes_issued_unique; eauto.
+    - exfalso. revert E. unfold session_decode.
+      destruct (alookup (is_tok i) (i_cache st)); [discriminate|].
+      destruct (issued_decodes _ _ _ CO IO) as (c & pt & Eb & Edc & Es). rewrite K, Eb, Edc, Es. discriminate. }
+  destruct ED as (st1 & ED & (Ec & _ & _ & _ & Eu)).
+  rewrite authenticate_no_bearer.
+  unfold authenticate, authenticate_with, primary_authenticate_with, cfg_role. cbn [im_authenticate repaired].
+  unfold config_authenticate. simpl rq_bearer. simpl rq_tr.
+  rewrite Ea, EA. simpl. rewrite ED, Ec.
+  destruct (alookup (s_user (is_sess i)) (cf_users (i_cfg st))) as [d|]; simpl.
+  - destruct (alookup (u_role d) (cf_roles (i_cfg st))) as [r|]; simpl; auto.
+    unfold unix_authenticate. rewrite Eu. destruct tr as [|p]; auto. destruct (alookup p (i_unix st)); auto.
+  - unfold unix_authenticate. rewrite Eu. destruct tr as [|p]; auto. destruct (alookup p (i_unix st)); auto.
+Qed.
+
+(** * Tokens stay valid for as long as their user is configured
+    Logout with that very token, eviction from the cache, restarts: a token of this storage authenticates as its
+    user for as long as that user is configured, with the role the configuration gives the user now (sessions
+    carry no expiry, logout only drops a cache entry). *)
+Theorem token_valid_forever : forall P cfg key sender st0 ops st log i r tr,
+  crypto_ok P -> start cfg key sender = Some st0 -> run P st0 ops = Some (st, log) ->
+  In i log -> cf_auth (i_cfg st) = ConfigFile -> is_tok i <> cf_admin_token (i_cfg st) ->
+  cfg_role (i_cfg st) (s_user (is_sess i)) = Some r ->
+  snd (authenticate P st (mkRq (Some (is_tok i)) tr)) = AUser (s_user (is_sess i)) r.
+Proof.
+  intros P cfg key sender st0 ops st log i r tr CO S R Hin Ea NA Er.
+  rewrite (authenticate_issued P key st log i tr CO (run_inv0 _ _ _ _ _ _ _ _ CO S R) Hin Ea NA), Er. reflexivity.
+Qed.
+
+(** The token of a user who has been removed from the configuration is worth nothing. *)
+Theorem removed_user_token_refused : forall P cfg key sender st0 ops st log i tr,
+  crypto_ok P -> start cfg key sender = Some st0 -> run P st0 ops = Some (st, log) ->
+  In i log -> cf_auth (i_cfg st) = ConfigFile -> is_tok i <> cf_admin_token (i_cfg st) ->
+  alookup (s_user (is_sess i)) (cf_users (i_cfg st)) = None ->
+  snd (authenticate P st (mkRq (Some (is_tok i)) tr)) = snd (authenticate P st (mkRq None tr)).
+Proof.
+  intros P cfg key sender st0 ops st log i tr CO S R Hin Ea NA En.
+  rewrite (authenticate_issued P key st log i tr CO (run_inv0 _ _ _ _ _ _ _ _ CO S R) Hin Ea NA).
+  unfold cfg_role. rewrite En. reflexivity.
+Qed.
+
+(** * Login *)
+
+(** The statements, over a login function. Soundness: whoever logs in is the configured user of the submitted
+    name, with that user's role. Completeness: a configured user whose stored hash matches (for the normalised
+    name in the weak salt) and whose role permits login does log in. *)
+Definition login_identity_on (lg : prims -> inst -> option (string * string) -> option string -> inst * lres) : Prop :=
+  forall P st name pw b st' tok id rn,
+    crypto_ok P -> cf_auth (i_cfg st) = ConfigFile ->
+    lg P st (Some (name, pw)) b = (st', LOk tok id rn) ->
+    exists d, alookup name (cf_users (i_cfg st)) = Some d /\ id = name /\ rn = u_role d
+              /\ p_pw_ok P (u_cred d) (p_norm P name) (p_norm P pw) = true.
+
+Definition login_complete_on (lg : prims -> inst -> option (string * string) -> option string -> inst * lres) : Prop :=
+  forall P st name pw b d r,
+    crypto_ok P -> cf_auth (i_cfg st) = ConfigFile ->
+    alookup name (cf_users (i_cfg st)) = Some d -> u_salt_hex d = true ->
+    p_pw_ok P (u_cred d) (p_norm P name) (p_norm P pw) = true ->
+    alookup (u_role d) (cf_roles (i_cfg st)) = Some r -> is_allowed r Login None = true ->
+    exists st' tok, lg P st (Some (name, pw)) b = (st', LOk tok name (u_role d)).
+
+(** Login succeeds exactly for a configured user with the matching password whose role permits login - for every
+    configuration; the hypothesis on the configured names that the pinned tree needed is gone. *)
 Theorem login_iff : forall P st name pw b id rn,
-  cf_auth (i_cfg st) = ConfigFile -> names_normal P (i_cfg st) ->
+  cf_auth (i_cfg st) = ConfigFile ->
   ((exists st' tok, login P st (Some (name, pw)) b = (st', LOk tok id rn)) <->
    (exists d r, alookup name (cf_users (i_cfg st)) = Some d /\ u_salt_hex d = true
-      /\ p_pw_ok P (u_cred d) name (p_norm P pw) = true
+      /\ p_pw_ok P (u_cred d) (p_norm P name) (p_norm P pw) = true
       /\ alookup (u_role d) (cf_roles (i_cfg st)) = Some r /\ is_allowed r Login None = true
       /\ id = name /\ rn = u_role d)).
 Proof.
-  intros P st name pw b id rn Ea NN. unfold login. rewrite Ea. unfold config_login. split.
+  intros P st name pw b id rn Ea. unfold login, login_with. cbn [im_login repaired]. rewrite Ea.
+  unfold config_login. split.
   - intros (st' & tok & H). revert H.
     destruct (alookup name (cf_users (i_cfg st))) as [d0|] eqn:E0; [|intros H; inv H].
-    rewrite (NN _ _ E0), E0.
     destruct (u_salt_hex d0) eqn:Eh; cbn [negb]; [|intros H; inv H].
-    destruct (p_pw_ok P (u_cred d0) name (p_norm P pw)) eqn:Ep; cbn [negb]; [|intros H; inv H].
+    destruct (p_pw_ok P (u_cred d0) (p_norm P name) (p_norm P pw)) eqn:Ep; cbn [negb]; [|intros H; inv H].
     destruct (alookup (u_role d0) (cf_roles (i_cfg st))) as [r|] eqn:Er; [|intros H; inv H].
     destruct (is_allowed r Login None) eqn:Eal; cbn [negb]; intros H; inv H.
     exists d0, r. splits; auto.
   - intros (d & r & E0 & Eh & Ep & Er & Eal & -> & ->).
-    rewrite E0, (NN _ _ E0), E0, Eh, Ep, Er, Eal. cbn [negb]. eexists _, _. reflexivity.
+    rewrite E0, Eh, Ep, Er, Eal. cbn [negb]. eexists _, _. reflexivity.
+Qed.
+
+Theorem login_identity : login_identity_on login.
+Proof.
+  intros P st name pw b st' tok id rn _ Ea H.
+  destruct (proj1 (login_iff P st name pw b id rn Ea)) as (d & r & E0 & _ & Ep & _ & _ & -> & ->); eauto.
+Qed.
+
+Theorem login_complete : login_complete_on login.
+Proof.
+  intros P st name pw b d r _ Ea E0 Eh Ep Er Eal.
+  apply (proj2 (login_iff P st name pw b name (u_role d) Ea)). exists d, r. splits; auto.
+Qed.
+
+(** What still depends on the form of a configured name. The stored hash is made outside the daemon, from some
+    name [n0] in the weak salt; under an ideal hash ([made_from]: the stored pair matches exactly the inputs it was
+    made from) the user can log in iff the trimmed, NFKC-normalised form of the configured name is that [n0].
+    `krillc config user --id ID` takes [n0] = NFKC(ID) WITHOUT trimming (cli/options/config.rs:64,78-79): a
+    configured name with a leading or trailing blank can therefore never log in ([login_blank_name_witness]). *)
+Definition made_from (P : prims) (c : N) (n0 pw0 : string) : Prop :=
+  forall n p, p_pw_ok P c n p = true <-> (n = n0 /\ p = pw0).
+
+Theorem login_needs_salt_name : forall P st name pw b d r n0,
+  cf_auth (i_cfg st) = ConfigFile ->
+  alookup name (cf_users (i_cfg st)) = Some d -> u_salt_hex d = true ->
+  made_from P (u_cred d) n0 (p_norm P pw) ->
+  alookup (u_role d) (cf_roles (i_cfg st)) = Some r -> is_allowed r Login None = true ->
+  ((exists st' tok, login P st (Some (name, pw)) b = (st', LOk tok name (u_role d))) <-> p_norm P name = n0).
+Proof.
+  intros P st name pw b d r n0 Ea E0 Eh MF Er Eal.
+  rewrite (login_iff P st name pw b name (u_role d) Ea). split.
+  - intros (d' & r' & E0' & _ & Ep & _). rewrite E0 in E0'. inv E0'. apply MF in Ep. tauto.
+  - intros En. exists d, r. splits; auto. apply MF. auto.
 Qed.
 
 (** * A credential that is not genuine gains nothing *)
@@ -660,36 +786,24 @@ Proof.
     destruct (config_authenticate_spec _ _ _ _ _ C E) as (_ & _ & _ & _ & H).
     destruct H as [-> Hr]; [intros tok s Et; inv Et; apply ND|].
     rewrite Hr; [reflexivity|discriminate]. }
-  unfold authenticate, primary_authenticate. simpl rq_bearer. simpl rq_tr.
+  unfold authenticate, authenticate_with, primary_authenticate_with. cbn [im_authenticate repaired].
+  simpl rq_bearer. simpl rq_tr.
   destruct (cf_auth (i_cfg st)).
   - rewrite EA. simpl. reflexivity.
   - rewrite EA, EC. simpl. reflexivity.
 Qed.
 
-Theorem bad_credential_no_gain : forall P cfg key st0 ops st log b tr,
-  crypto_ok P -> start cfg key = Some st0 -> run P st0 ops = Some (st, log) ->
+Theorem bad_credential_no_gain : forall P cfg key sender st0 ops st log b tr,
+  crypto_ok P -> start cfg key sender = Some st0 -> run P st0 ops = Some (st, log) ->
   own_ct P key log b -> ~ genuine P (i_cfg st) log b ->
   authenticate P st (mkRq (Some b) tr) = authenticate P st (mkRq None tr).
 Proof.
-  intros P cfg key st0 ops st log b tr CO S R OWN NG.
-  pose proof (run_inv0 _ _ _ _ _ _ _ CO S R) as [K C U L].
+  intros P cfg key sender st0 ops st log b tr CO S R OWN NG.
+  pose proof (run_inv0 _ _ _ _ _ _ _ _ CO S R) as [K C U L].
   apply no_decode_no_gain; auto.
   - intros s D. rewrite K in D. destruct (decodes_issued _ _ _ _ _ CO L OWN D) as (i & Hin & SB & _).
     apply NG. right. eauto.
   - intros E. apply NG. left. auto.
-Qed.
-
-(** What a request without bearer gets: nothing over TCP, the peer's role over the socket. *)
-Lemma authenticate_no_bearer P st tr :
-  authenticate P st (mkRq None tr) =
-  (st, match tr with
-       | Tcp => AAnon
-       | Unix p => match alookup p (i_unix st) with Some r => AUser p r | None => AErr EInvalid end
-       end).
-Proof.
-  unfold authenticate, primary_authenticate. simpl.
-  destruct (cf_auth (i_cfg st)); simpl; destruct tr as [|p]; simpl; auto;
-    destruct (alookup p (i_unix st)); reflexivity.
 Qed.
 
 Lemma anonymous_allows_nothing p res : is_allowed role_anonymous p res = false.
@@ -707,8 +821,8 @@ Qed.
 
 (** Over TCP, or over the socket from a system user that is not mapped, a credential that is not genuine is
     refused on every route that requires a permission, and is nobody in the audit log. *)
-Theorem refused_everywhere : forall P cfg key st0 ops st log b tr,
-  crypto_ok P -> start cfg key = Some st0 -> run P st0 ops = Some (st, log) ->
+Theorem refused_everywhere : forall P cfg key sender st0 ops st log b tr,
+  crypto_ok P -> start cfg key sender = Some st0 -> run P st0 ops = Some (st, log) ->
   own_ct P key log b -> ~ genuine P (i_cfg st) log b ->
   (tr = Tcp \/ exists p, tr = Unix p /\ alookup p (cf_unix (i_cfg st)) = None) ->
   let a := snd (authenticate P st (mkRq (Some b) tr)) in
@@ -717,10 +831,10 @@ Theorem refused_everywhere : forall P cfg key st0 ops st log b tr,
         authorize spec_routes tb (to_auth a) q <> Served)
   /\ actor_name a = "anonymous"%string.
 Proof.
-  intros P cfg key st0 ops st log b tr CO S R OWN NG TR a.
-  pose proof (run_inv0 _ _ _ _ _ _ _ CO S R) as [K C U L].
+  intros P cfg key sender st0 ops st log b tr CO S R OWN NG TR a.
+  pose proof (run_inv0 _ _ _ _ _ _ _ _ CO S R) as [K C U L].
   assert (Ea : a = AAnon \/ a = AErr EInvalid).
-  { subst a. rewrite (bad_credential_no_gain _ _ _ _ _ _ _ _ _ CO S R OWN NG), authenticate_no_bearer. simpl.
+  { subst a. rewrite (bad_credential_no_gain _ _ _ _ _ _ _ _ _ _ CO S R OWN NG), authenticate_no_bearer. simpl.
     destruct TR as [->|(p & -> & En)]; auto.
     rewrite (build_unix_lookup_none _ _ _ _ U En). auto. }
   assert (NA : forall p res, allowed a p res = false).
@@ -732,75 +846,63 @@ Proof.
 Qed.
 
 (** Over the socket from a mapped system user the bad bearer is ignored: the request acts as the peer. *)
-Theorem bad_credential_unix_peer : forall P cfg key st0 ops st log b p r,
-  crypto_ok P -> start cfg key = Some st0 -> run P st0 ops = Some (st, log) ->
+Theorem bad_credential_unix_peer : forall P cfg key sender st0 ops st log b p r,
+  crypto_ok P -> start cfg key sender = Some st0 -> run P st0 ops = Some (st, log) ->
   own_ct P key log b -> ~ genuine P (i_cfg st) log b -> alookup p (i_unix st) = Some r ->
   authenticate P st (mkRq (Some b) (Unix p)) = (st, AUser p r).
 Proof.
-  intros P cfg key st0 ops st log b p r CO S R OWN NG E.
-  rewrite (bad_credential_no_gain _ _ _ _ _ _ _ _ _ CO S R OWN NG), authenticate_no_bearer, E. reflexivity.
+  intros P cfg key sender st0 ops st log b p r CO S R OWN NG E.
+  rewrite (bad_credential_no_gain _ _ _ _ _ _ _ _ _ _ CO S R OWN NG), authenticate_no_bearer, E. reflexivity.
 Qed.
 
 (** * Tokens of another instance *)
 Theorem other_instance_token_rejected :
-  forall P cfgA keyA stA0 opsA stA logA cfgB keyB stB0 opsB stB logB i tr,
+  forall P cfgA keyA sA stA0 opsA stA logA cfgB keyB sB stB0 opsB stB logB i tr,
   crypto_ok P -> key_sep P -> keyA <> keyB ->
-  start cfgA keyA = Some stA0 -> run P stA0 opsA = Some (stA, logA) ->
-  start cfgB keyB = Some stB0 -> run P stB0 opsB = Some (stB, logB) ->
+  start cfgA keyA sA = Some stA0 -> run P stA0 opsA = Some (stA, logA) ->
+  start cfgB keyB sB = Some stB0 -> run P stB0 opsB = Some (stB, logB) ->
   In i logB -> is_tok i <> cf_admin_token (i_cfg stA) ->
   authenticate P stA (mkRq (Some (is_tok i)) tr) = authenticate P stA (mkRq None tr).
 Proof.
-  intros P cfgA keyA stA0 opsA stA logA cfgB keyB stB0 opsB stB logB i tr CO KS NE SA RA SB RB Hin NA.
-  pose proof (run_inv0 _ _ _ _ _ _ _ CO SA RA) as [KA CA _ _].
-  pose proof (run_inv0 _ _ _ _ _ _ _ CO SB RB) as [_ _ _ LB].
+  intros P cfgA keyA sA stA0 opsA stA logA cfgB keyB sB stB0 opsB stB logB i tr CO KS NE SA RA SB RB Hin NA.
+  pose proof (run_inv0 _ _ _ _ _ _ _ _ CO SA RA) as [KA CA _ _].
+  pose proof (run_inv0 _ _ _ _ _ _ _ _ CO SB RB) as [_ _ _ LB].
   apply no_decode_no_gain; auto.
   intros s (c & pt & Eb & Ed & _). destruct (LB i Hin) as (Et & _).
   rewrite Et, (co_b64 _ CO) in Eb. inv Eb.
   destruct (co_sound _ CO _ _ _ Ed) as [n En]. apply KS in En. congruence.
 Qed.
 
-(** * Tokens are never invalidated
-    Whatever happened since it was issued - logout with that very token, eviction from the cache, restarts -
-    a token of this storage authenticates as its user, with the role its role name has in the current table. *)
-Theorem token_valid_forever : forall P cfg key st0 ops st log i r tr,
-  crypto_ok P -> start cfg key = Some st0 -> run P st0 ops = Some (st, log) ->
-  In i log -> cf_auth (i_cfg st) = ConfigFile -> is_tok i <> cf_admin_token (i_cfg st) ->
-  alookup (s_role (is_sess i)) (cf_roles (i_cfg st)) = Some r ->
-  snd (authenticate P st (mkRq (Some (is_tok i)) tr)) = AUser (s_user (is_sess i)) r.
+(** * Nonces
+    The sender ids are drawn from the system's random generator (32 bits, crypt.rs:56-68); that two starts of a
+    daemon on the same storage draw different ones is an assumption of the trusted base, stated as the premise
+    [NoDup (sender :: op_senders ops)]. Under it no (key, nonce) pair is used for two tokens. *)
+Definition nonces_fresh_on (I : impl) : Prop :=
+  forall P cfg key sender st0 ops st log,
+    crypto_ok P -> start cfg key sender = Some st0 -> run_with I P st0 ops = Some (st, log) ->
+    NoDup (sender :: op_senders ops) -> NoDup (map is_nonce log).
+
+Theorem nonces_fresh : nonces_fresh_on repaired.
 Proof.
-  intros P cfg key st0 ops st log i r tr CO S R Hin Ea NA Er.
-  pose proof (run_inv0 _ _ _ _ _ _ _ CO S R) as [K C U L].
-  pose proof (L i Hin) as IO.
-  assert (EA : admin_authenticate (i_cfg st) (Some (is_tok i)) = PErr EInvalid).
-  { unfold admin_authenticate. destruct (String.eqb (is_tok i) (cf_admin_token (i_cfg st))) eqn:E; auto.
-    apply String.eqb_eq in E. contradiction. }
-  assert (ED : exists st1, session_decode P st (is_tok i) = (st1, Some (is_sess i)) /\ i_cfg st1 = i_cfg st).
-  { destruct (session_decode P st (is_tok i)) as [st1 o] eqn:E.
-    destruct (session_decode_spec _ _ _ _ _ C E) as (Hs & _ & Hd & Hn).
-    exists st1. split; [|apply Hs]. f_equal.
-    destruct o as [s|].
-    - f_equal. rewrite K in Hd. eapply decodes_issued_unique; eauto.
-    - exfalso. revert E. unfold session_decode.
-      destruct (alookup (is_tok i) (i_cache st)); [discriminate|].
-      destruct (issued_decodes _ _ _ CO IO) as (c & pt & Eb & Edc & Es). rewrite K, Eb, Edc, Es. discriminate. }
-  destruct ED as (st1 & ED & Ec).
-  unfold authenticate, primary_authenticate, config_authenticate. simpl rq_bearer. simpl rq_tr.
-  rewrite Ea, EA. simpl. rewrite ED, Ec, Er. reflexivity.
+  intros P cfg key sender st0 ops st log CO S R ND. change (run_with repaired) with run in R.
+  pose proof (start_inv P _ _ _ _ S) as I0.
+  assert (N0 : ninv [sender] st0 []).
+  { unfold start in S. destruct (build_unix _ _); inv S. constructor; simpl; auto. intros i []. constructor. }
+  inv ND.
+  destruct (run_ninv P key ops [sender] st0 [] st log CO I0 N0 H2) as (used' & [_ _ N]); auto.
+  intros s Hs [<-|[]]. auto.
 Qed.
 
-(** * Nonces *)
-Theorem nonces_fresh : forall P cfg key st0 ops st log,
-  crypto_ok P -> start cfg key = Some st0 -> run P st0 ops = Some (st, log) -> no_restart ops ->
-  NoDup (map is_nonce log).
+(** The ciphertext of every token is the encryption under the storage key and the token's own nonce. *)
+Theorem issued_under_own_nonce : forall P cfg key sender st0 ops st log i,
+  crypto_ok P -> start cfg key sender = Some st0 -> run P st0 ops = Some (st, log) -> In i log ->
+  is_tok i = p_b64enc P (p_encrypt P key (is_nonce i) (p_ser P (is_sess i))).
 Proof.
-  intros P cfg key st0 ops st log CO S R NR.
-  pose proof (start_inv P _ _ _ S) as I0.
-  assert (N0 : inv_nr cfg st0 []).
-  { constructor; [|intros i []]. unfold start in S. destruct (build_unix _ _); inv S. reflexivity. }
-  destruct (run_inv_nr _ _ _ _ _ _ _ _ CO I0 N0 NR R) as (_ & _ & ND & _). exact ND.
+  intros P cfg key sender st0 ops st log i CO S R Hin.
+  pose proof (run_inv0 _ _ _ _ _ _ _ _ CO S R) as [_ _ _ L]. apply (L i Hin).
 Qed.
 
-(** * Where the full statements fail, and examples showing that the hypotheses above can be met *)
+(** * Regression witnesses: the originally pinned tree, and examples showing that the hypotheses can be met *)
 Open Scope string_scope.
 
 Definition ex_roles : list (string * role) :=
@@ -828,146 +930,185 @@ Proof.
   intros E c n pt Eb Ec. simpl in Eb. inv Eb. simpl in E. unfold toy_encrypt in E. rewrite strip_unary_app in E. discriminate.
 Qed.
 
+Lemma toy_made_from norms creds c n0 p0 : nlookup c creds = Some (n0, p0) -> made_from (toy norms creds) c n0 p0.
+Proof.
+  intros E n p. simpl. unfold toy_pw_ok. rewrite E. rewrite andb_true_iff, !String.eqb_eq. tauto.
+Qed.
+
 Example auth_identity_nonvacuous :
   exists st0 st log i st',
-    start ex_cfg ex_key = Some st0
+    start ex_cfg ex_key 0 = Some st0
     /\ run exP st0 [ex_login "carol" "pwC"; ex_login "alice" "pwA"] = Some (st, log)
-    /\ no_restart [ex_login "carol" "pwC"; ex_login "alice" "pwA"]
     /\ In i log /\ own_ct exP ex_key log (is_tok i)
     /\ authenticate exP st (mkRq (Some (is_tok i)) Tcp) = (st', AUser "carol" role_readonly)
     /\ cfg_role ex_cfg "carol" = Some role_readonly.
 Proof.
-  eexists _, _, _, _, _. split; [reflexivity|]. split; [vm_compute; reflexivity|]. split; [reflexivity|].
+  eexists _, _, _, _, _. split; [reflexivity|]. split; [vm_compute; reflexivity|].
   split; [left; reflexivity|]. split; [apply own_ct_of_issued; left; reflexivity|].
   split; vm_compute; reflexivity.
 Qed.
 
 Example auth_identity_unix_nonvacuous :
-  exists st0, start ex_cfg ex_key = Some st0
+  exists st0, start ex_cfg ex_key 0 = Some st0
     /\ snd (authenticate exP st0 (mkRq None (Unix "root"))) = AUser "root" role_admin
     /\ snd (authenticate exP st0 (mkRq (Some "secret") Tcp)) = AUser admin_actor role_admin.
 Proof. eexists. split; [reflexivity|]. split; vm_compute; reflexivity. Qed.
 
 Example login_iff_nonvacuous :
-  exists st0, start ex_cfg ex_key = Some st0 /\ names_normal exP ex_cfg
+  exists st0, start ex_cfg ex_key 0 = Some st0
     /\ (exists st' tok, login exP st0 (Some ("alice", "pwA")) None = (st', LOk tok "alice" "admin"))
     /\ snd (login exP st0 (Some ("alice", "pwC")) None) = LInvalid       (* another user's password *)
     /\ snd (login exP st0 (Some ("Alice", "pwA")) None) = LInvalid       (* a name that is not configured *)
     /\ snd (login exP st0 (Some ("dave", "pwD")) None) = LForbidden.     (* the role does not permit login *)
 Proof.
-  eexists. split; [reflexivity|]. split; [intros n d _; reflexivity|].
+  eexists. split; [reflexivity|].
   split; [eexists _, _; vm_compute; reflexivity|]. splits; vm_compute; reflexivity.
 Qed.
 
-(** ** F20b: the stored hash is looked up under the raw name, identity and role under the normalised name.
-    "ｂob" (U+FF42 U+006F U+0062) and "bob" are two configured users; NFKC maps the first name to the second.
-    The entry of "ｂob" is what `krillc config user --id ｂob` prints: that command normalises the id before
-    it enters the weak salt (cli/options/config.rs:64,78-79), so the stored hash of "ｂob" is made with "bob". *)
+(** ** F20b (repaired by a6855108). "ｂob" (U+FF42 U+006F U+0062) and "bob" are two configured users; NFKC maps the
+    first name to the second. The entry of "ｂob" is what `krillc config user --id ｂob` prints: that command
+    normalises the id before it enters the weak salt (cli/options/config.rs:64,78-79), so the stored hash of
+    "ｂob" is made with "bob". *)
 Definition f20b_cfg : config :=
   mkCfg ConfigFile "secret"
         [("bob", mkUser 1 true "admin"); ("ｂob", mkUser 2 true "readonly")]
         ex_roles [].
 Definition f20b_P : prims := toy [("ｂob", "bob")] [(1%N, ("bob", "pwA")); (2%N, ("bob", "pwB"))].
 
-(** The statement without the hypothesis [names_normal]. *)
-Definition login_identity_full : Prop :=
-  forall P st name pw b st' tok id rn,
-    crypto_ok P -> cf_auth (i_cfg st) = ConfigFile ->
-    login P st (Some (name, pw)) b = (st', LOk tok id rn) ->
-    exists d, alookup name (cf_users (i_cfg st)) = Some d /\ id = name /\ rn = u_role d.
-
-(** The read-only user's own password makes him "bob", an administrator. *)
-Lemma f20b_witness :
-  exists st0 st' tok, start f20b_cfg ex_key = Some st0
-    /\ login f20b_P st0 (Some ("ｂob", "pwB")) None = (st', LOk tok "bob" "admin")
-    /\ snd (authenticate f20b_P st' (mkRq (Some tok) Tcp)) = AUser "bob" role_admin
+(** The pinned tree: the read-only user's own password made him "bob", an administrator ... *)
+Lemma f20b_pinned_witness :
+  exists st0 st' tok, start f20b_cfg ex_key 0 = Some st0
+    /\ login_with pinned f20b_P st0 (Some ("ｂob", "pwB")) None = (st', LOk tok "bob" "admin")
+    /\ snd (authenticate_with pinned f20b_P st' (mkRq (Some tok) Tcp)) = AUser "bob" role_admin
     /\ cfg_role f20b_cfg "ｂob" = Some role_readonly.
 Proof. eexists _, _, _. split; [reflexivity|]. split; [vm_compute; reflexivity|]. split; vm_compute; reflexivity. Qed.
 
-Theorem login_identity_refuted : ~ login_identity_full.
+(** ... the repaired tree: he is himself. *)
+Example f20b_repaired :
+  exists st0 st' tok, start f20b_cfg ex_key 0 = Some st0
+    /\ login f20b_P st0 (Some ("ｂob", "pwB")) None = (st', LOk tok "ｂob" "readonly")
+    /\ snd (authenticate f20b_P st' (mkRq (Some tok) Tcp)) = AUser "ｂob" role_readonly
+    /\ snd (login f20b_P st0 (Some ("ｂob", "pwA")) None) = LInvalid
+    /\ snd (login f20b_P st0 (Some ("bob", "pwB")) None) = LInvalid.
 Proof.
-  intros F. destruct f20b_witness as (st0 & st' & tok & S & L & _).
+  eexists _, _, _. split; [reflexivity|]. split; [vm_compute; reflexivity|]. splits; vm_compute; reflexivity.
+Qed.
+
+Theorem login_identity_pinned_refuted : ~ login_identity_on (login_with pinned).
+Proof.
+  intros F. destruct f20b_pinned_witness as (st0 & st' & tok & S & L & _).
   assert (Ea : cf_auth (i_cfg st0) = ConfigFile) by (inv S; reflexivity).
   destruct (F f20b_P st0 _ _ _ _ _ _ _ (toy_crypto_ok _ _) Ea L) as (d & _ & E & _). discriminate.
 Qed.
 
-(** The other direction: a configured user with the right password who can never log in. *)
-Definition login_complete_full : Prop :=
-  forall P st name pw b d r,
-    crypto_ok P -> cf_auth (i_cfg st) = ConfigFile ->
-    alookup name (cf_users (i_cfg st)) = Some d -> u_salt_hex d = true ->
-    p_pw_ok P (u_cred d) (p_norm P name) (p_norm P pw) = true ->
-    alookup (u_role d) (cf_roles (i_cfg st)) = Some r -> is_allowed r Login None = true ->
-    exists st' tok, login P st (Some (name, pw)) b = (st', LOk tok name (u_role d)).
-
+(** The other direction on the pinned tree: a configured user with the right password who could never log in. *)
 Definition f20b_lone_cfg : config :=
   mkCfg ConfigFile "secret" [("ｂob", mkUser 2 true "readonly")] ex_roles [].
 
-Theorem login_complete_refuted : ~ login_complete_full.
+Theorem login_complete_pinned_refuted : ~ login_complete_on (login_with pinned).
 Proof.
   intros F.
-  destruct (start f20b_lone_cfg ex_key) as [st0|] eqn:S; [|discriminate].
+  destruct (start f20b_lone_cfg ex_key 0) as [st0|] eqn:S; [|discriminate].
   assert (Ea : cf_auth (i_cfg st0) = ConfigFile) by (inv S; reflexivity).
   destruct (F f20b_P st0 "ｂob" "pwB" None (mkUser 2 true "readonly") role_readonly (toy_crypto_ok _ _) Ea)
     as (st' & tok & L); try (inv S; reflexivity).
   inv S. vm_compute in L. discriminate.
 Qed.
 
-(** ** F20c: a token outlives the removal (or demotion) of its user.
-    The statement of [auth_identity] without [no_restart], with the running configuration. *)
-Definition auth_identity_restart_full : Prop :=
-  forall P cfg key st0 ops st log rq st' u r,
-    crypto_ok P -> start cfg key = Some st0 -> run P st0 ops = Some (st, log) ->
-    (forall b, rq_bearer rq = Some b -> own_ct P key log b) ->
-    authenticate P st rq = (st', AUser u r) ->
-    (rq_bearer rq = Some (cf_admin_token (i_cfg st)) /\ u = admin_actor /\ r = role_admin)
-    \/ (exists b i, rq_bearer rq = Some b /\ In i log /\ same_bytes P b (is_tok i) /\ u = s_user (is_sess i)
-          /\ cfg_role (i_cfg st) u = Some r)
-    \/ (exists rn, rq_tr rq = Unix u /\ alookup u (cf_unix (i_cfg st)) = Some rn
-          /\ alookup rn (cf_roles (i_cfg st)) = Some r).
+(** What is left (see [login_needs_salt_name]): "x " is configured, its hash was made by the command line tool -
+    with "x " in the weak salt - for the password "pw"; the daemon trims the name before it enters the weak salt. *)
+Example login_blank_name_witness :
+  let P := toy [("x ", "x")] [(1%N, ("x ", "pw"))] in
+  let cfg := mkCfg ConfigFile "secret" [("x ", mkUser 1 true "readonly")] ex_roles [] in
+  exists st0, start cfg ex_key 0 = Some st0
+    /\ made_from P 1 "x " (p_norm P "pw")
+    /\ p_norm P "x " <> "x "
+    /\ snd (login P st0 (Some ("x ", "pw")) None) = LInvalid
+    /\ snd (login P st0 (Some ("x", "pw")) None) = LInvalid.
+Proof.
+  cbv zeta. eexists. split; [reflexivity|]. split; [apply toy_made_from; reflexivity|].
+  split; [discriminate|]. split; vm_compute; reflexivity.
+Qed.
 
-(** alice has been removed from the configuration; carol is all that is left. *)
+(** ** F20c (repaired by a7a0b51d): alice has been removed from the configuration; carol is all that is left. *)
 Definition ex_cfg_after : config :=
   mkCfg ConfigFile "secret" [("carol", mkUser 2 true "readonly")] ex_roles [("root", "admin")].
-Definition f20c_ops : list op := [ex_login "alice" "pwA"; ORestart ex_cfg_after].
+Definition f20c_ops : list op := [ex_login "alice" "pwA"; ORestart ex_cfg_after 1].
 
-Lemma f20c_witness :
-  exists st0 st log i, start ex_cfg ex_key = Some st0 /\ run exP st0 f20c_ops = Some (st, log)
+Lemma f20c_pinned_witness :
+  exists st0 st log i, start ex_cfg ex_key 0 = Some st0 /\ run_with pinned exP st0 f20c_ops = Some (st, log)
     /\ In i log /\ i_cfg st = ex_cfg_after
-    /\ authenticate exP st (mkRq (Some (is_tok i)) Tcp) = (fst (authenticate exP st (mkRq (Some (is_tok i)) Tcp)), AUser "alice" role_admin)
+    /\ authenticate_with pinned exP st (mkRq (Some (is_tok i)) Tcp)
+       = (fst (authenticate_with pinned exP st (mkRq (Some (is_tok i)) Tcp)), AUser "alice" role_admin)
     /\ cfg_role ex_cfg_after "alice" = None.
 Proof.
   eexists _, _, _, _. split; [reflexivity|]. split; [vm_compute; reflexivity|].
   split; [left; reflexivity|]. split; [reflexivity|]. split; vm_compute; reflexivity.
 Qed.
 
-Theorem auth_identity_restart_refuted : ~ auth_identity_restart_full.
+Theorem auth_identity_pinned_refuted : ~ auth_identity_on pinned.
 Proof.
-  intros F. destruct f20c_witness as (st0 & st & log & i & S & R & Hin & Ec & A & Er).
+  intros F. destruct f20c_pinned_witness as (st0 & st & log & i & S & R & Hin & Ec & A & Er).
   assert (OWN : forall b, rq_bearer (mkRq (Some (is_tok i)) Tcp) = Some b -> own_ct exP ex_key log b).
   { intros b Eb. simpl in Eb. inv Eb. apply own_ct_of_issued; auto. }
-  destruct (F exP ex_cfg ex_key st0 f20c_ops st log _ _ _ _ (toy_crypto_ok _ _) S R OWN A)
-    as [(Eb & Eu & _)|[(b & j & _ & _ & _ & _ & Ecr)|(rn & Et & _)]].
+  destruct (F exP ex_cfg ex_key 0 st0 f20c_ops st log _ _ _ _ (toy_crypto_ok _ _) S R OWN A)
+    as [(Eb & Eu & _)|[(b & j & _ & _ & _ & _ & _ & Ecr)|(rn & Et & _)]].
   - discriminate.
   - rewrite Ec, Er in Ecr. discriminate.
   - discriminate.
 Qed.
 
-(** ** Nonces repeat after a restart (crypt.rs:165-183: the stored counter is the one of the day the key was made) *)
-Theorem nonce_reuse_after_restart :
-  exists P cfg key st0 ops st log i j,
-    crypto_ok P /\ start cfg key = Some st0 /\ run P st0 ops = Some (st, log)
+(** The repaired tree on the same run: the token of the removed user is worth nothing, carol's works. *)
+Example f20c_repaired :
+  exists st0 st log i, start ex_cfg ex_key 0 = Some st0
+    /\ run exP st0 [ex_login "alice" "pwA"; ex_login "carol" "pwC"; ORestart ex_cfg_after 1] = Some (st, log)
+    /\ nth_error log 0 = Some i
+    /\ snd (authenticate exP st (mkRq (Some (is_tok i)) Tcp)) = AAnon
+    /\ exists j, nth_error log 1 = Some j
+       /\ snd (authenticate exP st (mkRq (Some (is_tok j)) Tcp)) = AUser "carol" role_readonly.
+Proof.
+  eexists _, _, _, _. split; [reflexivity|]. split; [vm_compute; reflexivity|]. split; [reflexivity|].
+  split; [vm_compute; reflexivity|]. eexists. split; [reflexivity|]. vm_compute; reflexivity.
+Qed.
+
+(** ** F20d (repaired by e31fb922): on the pinned tree the sender id of a restarted daemon was the stored one and
+    the counter started at 0 again - whatever sender id the new process would have drawn. *)
+Theorem nonce_reuse_pinned :
+  exists P cfg key sender st0 ops st log i j,
+    crypto_ok P /\ start cfg key sender = Some st0 /\ run_with pinned P st0 ops = Some (st, log)
+    /\ NoDup (sender :: op_senders ops)
     /\ In i log /\ In j log /\ is_nonce i = is_nonce j /\ is_sess i <> is_sess j.
 Proof.
-  exists exP, ex_cfg, ex_key.
-  eexists _, [ex_login "alice" "pwA"; ORestart ex_cfg; ex_login "carol" "pwC"], _, _, _, _.
+  exists exP, ex_cfg, ex_key, 0.
+  eexists _, [ex_login "alice" "pwA"; ORestart ex_cfg 1; ex_login "carol" "pwC"], _, _, _, _.
   split; [apply toy_crypto_ok|]. split; [reflexivity|]. split; [vm_compute; reflexivity|].
+  split; [simpl; repeat constructor; simpl; intuition discriminate|].
   split; [left; reflexivity|]. split; [right; left; reflexivity|]. split; [reflexivity|discriminate].
 Qed.
 
+Theorem nonces_fresh_pinned_refuted : ~ nonces_fresh_on pinned.
+Proof.
+  intros F. destruct nonce_reuse_pinned as (P & cfg & key & sender & st0 & ops & st & log & i & j & CO & S & R & ND & Hi & Hj & En & Es).
+  pose proof (F P cfg key sender st0 ops st log CO S R ND) as N.
+  assert (Hne : i <> j) by (intros ->; apply Es; reflexivity).
+  clear - N Hi Hj En Hne.
+  induction log as [|x log IH]; [destruct Hi|]. simpl in N. inv N.
+  destruct Hi as [->|Hi], Hj as [->|Hj].
+  - contradiction.
+  - apply H1. rewrite En. apply in_map. auto.
+  - apply H1. rewrite <- En. apply in_map. auto.
+  - apply IH; auto.
+Qed.
+
+Example nonces_fresh_nonvacuous :
+  exists st0 st log, start ex_cfg ex_key 0 = Some st0
+    /\ run exP st0 [ex_login "alice" "pwA"; ORestart ex_cfg 1; ex_login "carol" "pwC"] = Some (st, log)
+    /\ map is_nonce log = [(0, 0); (1, 0)]%N.
+Proof. eexists _, _, _. split; [reflexivity|]. split; vm_compute; reflexivity. Qed.
+
 (** ** Examples for the remaining theorems *)
 Example bad_credential_nonvacuous :
-  exists st0 st log, start ex_cfg ex_key = Some st0 /\ run exP st0 [ex_login "alice" "pwA"] = Some (st, log)
+  exists st0 st log, start ex_cfg ex_key 0 = Some st0 /\ run exP st0 [ex_login "alice" "pwA"] = Some (st, log)
     /\ own_ct exP ex_key log "garbage" /\ ~ genuine exP (i_cfg st) log "garbage"
     /\ snd (authenticate exP st (mkRq (Some "garbage") Tcp)) = AAnon
     /\ snd (authenticate exP st (mkRq (Some "garbage") (Unix "root"))) = AUser "root" role_admin
@@ -981,7 +1122,7 @@ Proof.
 Qed.
 
 Example other_instance_nonvacuous :
-  exists stA0 stB0 stB logB i, start ex_cfg 7 = Some stA0 /\ start ex_cfg 8 = Some stB0
+  exists stA0 stB0 stB logB i, start ex_cfg 7 0 = Some stA0 /\ start ex_cfg 8 0 = Some stB0
     /\ run exP stB0 [ex_login "alice" "pwA"] = Some (stB, logB) /\ In i logB
     /\ is_tok i <> cf_admin_token (i_cfg stA0)
     /\ snd (authenticate exP stB (mkRq (Some (is_tok i)) Tcp)) = AUser "alice" role_admin
@@ -993,10 +1134,10 @@ Qed.
 
 (** Logged out, swept from the cache, daemon restarted: the token still works. *)
 Example token_valid_forever_nonvacuous :
-  exists st0 st1 log1 i, start ex_cfg ex_key = Some st0
+  exists st0 st1 log1 i, start ex_cfg ex_key 0 = Some st0
     /\ run exP st0 [ex_login "carol" "pwC"] = Some (st1, log1) /\ In i log1
     /\ exists st2 log2,
-         run exP st0 [ex_login "carol" "pwC"; OLogout (Some (is_tok i)); OEvict (is_tok i); ORestart ex_cfg]
+         run exP st0 [ex_login "carol" "pwC"; OLogout (Some (is_tok i)); OEvict (is_tok i); ORestart ex_cfg 1]
            = Some (st2, log2)
          /\ i_cache st2 = []
          /\ snd (authenticate exP st2 (mkRq (Some (is_tok i)) Tcp)) = AUser "carol" role_readonly.
